@@ -34,15 +34,32 @@ def cookieCfg? (j : Json) : Option CookieCfg := do
     | _ => none
   pure { name, domain, path, secure, httpOnly, sameSite, kind }
 
+def alg? : String → Option Alg
+  | "none" => some Alg.none
+  | "sign" => some Alg.sign
+  | "encrypt" => some Alg.encrypt
+  | _ => none
+
+/-- `[alg, key]` with alg ∈ {sign, encrypt} (`FallbackConfig`). -/
+def fallback? (j : Json) : Option (Alg × Nat) :=
+  match j with
+  | .arr #[.str a, k] => do
+    let alg ← alg? a
+    if alg = .none then none
+    let key ← k.getNat?.toOption
+    pure (alg, key)
+  | _ => none
+
 def crypto? (j : Json) : Option Crypto := do
-  let alg ← match ← getStr? j "alg" with
-    | "none" => some Alg.none
-    | "sign" => some Alg.sign
-    | "encrypt" => some Alg.encrypt
-    | _ => none
+  let alg ← (getStr? j "alg").bind alg?
   let ruleName := (getStr? j "name").getD ""
   let percentEncode := (getBool? j "percent_encode").getD true
-  pure { alg, ruleName, percentEncode }
+  let key := (getNat? j "key").getD 0
+  let fallbacks ← match getVal? j "fallbacks" with
+    | none => some []
+    | some (.arr a) => a.toList.mapM fallback?
+    | _ => none
+  pure { alg, ruleName, percentEncode, key, fallbacks }
 
 def config? (j : Json) : Option Config := do
   let ttl ← getNat? j "ttl"
@@ -94,17 +111,31 @@ def op? (j : Json) : Option (Op K V) :=
     | _ => none
   | _ => none
 
+def clientMap? (j : Json) : Option (Map K V) :=
+  match j with
+  | .obj kvs => some (kvs.toList.map fun (k, v) => (k, v))
+  | _ => none
+
 def req? (j : Json) : Option (Req K V) := do
   let src ← match getVal? j "src" with
     | some (.str "none") => some Src.none
     | some (.str "tampered") => some Src.none   -- a cookie that fails verification/parsing is no cookie
     | some (.str _) => some Src.jar
     | none => some Src.jar
+    | some (.obj o) =>   -- {"parts": j, "client": {..}} = IncomingSession::from_parts
+      let o := Json.obj o
+      match getNat? o "parts", (getVal? o "client").bind clientMap? with
+      | some n, some cl => some (Src.parts n cl)
+      | _, _ => none
     | some v => (v.getNat?.toOption).map Src.issued
   let expire := (getBool? j "expire").getD false
   let rem ← getNat? j "rem"
   let ops ← (getArr? j "ops").bind (·.mapM op?)
-  pure { src, expire, rem, ops }
+  let crypto ← match getVal? j "crypto" with
+    | none => some none
+    | some .null => some none
+    | some c => (crypto? c).map some
+  pure { src, expire, rem, ops, crypto }
 
 /-! Output, with ids renamed to first-seen indices in traversal order. -/
 
@@ -172,7 +203,8 @@ def finJson (cfg : Config) (f : Fin K V) : Ren Json := do
   | .err e => pure (Json.mkObj [("r", "err"), ("kind", .str (finErrStr e)), ("set", num (respond cfg [] f).length)])
   | .panic => pure (Json.mkObj [("r", "panic")])
 
-def reqJson (cfg : Config) (o : ReqOut K V) : Ren Json := do
+def reqJson (o : ReqOut K V) : Ren Json := do
+  let cfg := o.cfg
   let inc ← match o.incoming with
     | some id => num <$> ren id
     | none => pure .null
@@ -187,7 +219,7 @@ def handle (j : Json) : Json :=
   match (getVal? j "cfg").bind config?, (getArr? j "requests").bind (·.mapM req?) with
   | some cfg, some reqs =>
     let outs := runHistory cfg reqs Client.init World.init
-    let (js, _) := (outs.mapM (reqJson cfg)).run []
+    let (js, _) := (outs.mapM reqJson).run []
     Json.mkObj [("r", "ok"), ("reqs", .arr js.toArray)]
   | _, _ => Json.mkObj [("r", "bad-case")]
 
